@@ -16,7 +16,6 @@ from typing import Any
 
 import numpy as np
 from multimethod import multimethod
-from scipy.linalg import sqrtm
 
 from lightworks.sdk.state import State
 
@@ -43,7 +42,7 @@ def state_fidelity(rho: np.ndarray, rho_exp: np.ndarray) -> float:
 
     """
     rho_exp = np.array(rho_exp)
-    rho_root = sqrtm(np.array(rho))
+    rho_root = _sqrtm_psd(np.array(rho))
     if rho_root.shape != rho_exp.shape:
         msg = (
             "Mismatch in dimensions between provided density matrices, "
@@ -51,7 +50,18 @@ def state_fidelity(rho: np.ndarray, rho_exp: np.ndarray) -> float:
         )
         raise ValueError(msg)
     inner = rho_root @ rho_exp @ rho_root
-    return abs(np.trace(sqrtm(inner)))
+    return abs(np.trace(_sqrtm_psd(inner)))
+
+
+def _sqrtm_psd(mat: np.ndarray) -> np.ndarray:
+    """
+    Finds the square root of a positive semi-definite matrix from its
+    eigen-decomposition, this remains valid when the matrix is singular, which
+    is the case for the density matrix of any pure state.
+    """
+    mat = np.array(mat, dtype=complex)
+    vals, vecs = np.linalg.eigh((mat + np.conj(mat.T)) / 2)
+    return (vecs * np.sqrt(vals.clip(0))) @ np.conj(vecs.T)
 
 
 def process_fidelity(choi: np.ndarray, choi_exp: np.ndarray) -> float:
